@@ -358,3 +358,24 @@ def parse_gfa_text(text):
             links.append((canon_link(f[1], f[2], f[3], f[4]), f[5], tuple(f[6:])))
             kinds.append("L")
     return segs, s_order, links, kinds
+
+
+def nodes_from_gfa_text(text):
+    """rGFA text -> ({id: {seq, ln, sn, so, sr, tags}}, links [(a,oa,b,ob)]) with the S-line tags decoded."""
+    nodes = {}
+    links = []
+    for line in text.split("\n"):
+        f = line.split("\t")
+        if f[0] == "S":
+            d = {"seq": f[2], "tags": {}}
+            for t in f[3:]:
+                k, ty, v = t.split(":", 2)
+                d["tags"][k] = int(v) if ty == "i" else v
+            d["ln"] = d["tags"].get("LN", len(f[2]) if f[2] != "*" else 0)
+            d["sn"] = d["tags"].get("SN")
+            d["so"] = d["tags"].get("SO")
+            d["sr"] = d["tags"].get("SR")
+            nodes[f[1]] = d
+        elif f[0] == "L":
+            links.append((f[1], f[2], f[3], f[4]))
+    return nodes, links
